@@ -23,6 +23,8 @@ PROPS = {
     ),
     "C15O": dict(
         mc=[dict(tla="Oracle_MC.tla", cfg="Oracle_MC_C15.cfg", tier="quick", timeout=300),
+            dict(tla="Oracle_MC.tla", cfg="Oracle_MC_C15_subq.cfg", tier="quick", timeout=300),
+            dict(tla="Oracle_MC.tla", cfg="Oracle_MC_C15_sub.cfg", tier="thorough", timeout=1500),
             dict(tla="Oracle_MC.tla", cfg="Oracle_MC_C15_deep.cfg", tier="thorough", timeout=1500)],
         gen=dict(tla="Oracle_Gen.tla", cfg="Oracle_Gen_C15.cfg", depth=24, num=dict(quick=300, thorough=4000), timeout=900),
         drive=dict(family="oracle", mode="c15", nrand=dict(quick=300, thorough=6000)),
